@@ -5,7 +5,7 @@
 (*   Process c hd tg note   the server serves the head hd of c's sent queue; tg =   *)
 (*                          who the message / receipt was forwarded to              *)
 (*   Deliver c hd fault out the server delivers the head hd of c's queue            *)
-(*   Restart c / End                                                                *)
+(*   Restart c / Join c / Leave c / End                                             *)
 (* The server part of every record must match the model exactly (otherwise the     *)
 (* trace is REJECTED: model drift or a machinery error); the client part is judged  *)
 (* by E2E!Labels and the rules it breaks are reported by name (viol), the state     *)
@@ -28,7 +28,7 @@ Out(o) == [sent |-> o.sent, shown |-> o.shown, seen |-> [j \in 1..Len(o.seen) |-
 TSubmit == /\ Is("Submit")
            /\ LET o == Out(Ev.out) IN
                 /\ Submit(Ev.c, Ev.d, o)
-                /\ viol' = Labels(Ev.c, None, o, Append(msgs, [s |-> Ev.c, d |-> Ev.d]))
+                /\ viol' = Labels(Ev.c, None, o, Append(msgs, NewMsg(Ev.c, Ev.d)))
            /\ Consume
 TProcess == /\ Is("Process")
             /\ inq[Ev.c] # <<>> /\ Head(inq[Ev.c]) = Ev.hd
@@ -43,11 +43,13 @@ TDeliver == /\ Is("Deliver")
                 /\ viol' = Labels(Ev.c, dl, o, msgs)
             /\ Consume
 TRestart == Is("Restart") /\ Quiescent /\ UNCHANGED vars /\ viol' = {} /\ Consume
+TJoin == Is("Join") /\ Join(Ev.c) /\ viol' = {} /\ Consume
+TLeave == Is("Leave") /\ Leave(Ev.c) /\ viol' = {} /\ Consume
 TEnd == /\ Is("End") /\ UNCHANGED vars /\ Consume
         /\ viol' = Lb("not-quiescent", ~Quiescent)
                    \cup Ls("undelivered", {i \in Ids : \E r \in Rcp(i) : <<r, i>> \notin shown})
                    \cup Ls("receipt-missing", {i \in Ids : \E r \in Rcp(i) : <<r, i>> \in shown /\ <<i, r>> \notin seen})
-TNext == TSubmit \/ TProcess \/ TDeliver \/ TRestart \/ TEnd
+TNext == TSubmit \/ TProcess \/ TDeliver \/ TRestart \/ TJoin \/ TLeave \/ TEnd
 TSpec == TInit /\ [][TNext]_tvars
 Progress == /\ TLCSet(tid, IF TLCGet(tid) > l - 1 THEN TLCGet(tid) ELSE l - 1)
             /\ (viol # {} => PrintT(ToJson([trace |-> tid, at |-> l - 1, rules |-> viol])))
